@@ -83,6 +83,7 @@ Definition PInv (cur keep subs : list jobid) (jl : list link) (b : option (list 
   | ExitRm sub linked => common cur subs jl sub linked /\ incl keep (names jl)
   | ExitWait sub linked => common cur subs jl sub linked /\ incl keep (names jl) /\ b = None
   | ExitFin _ _ => False       (* never reached by the code as it is *)
+  | GenIn => True
   end.
 
 Definition Inv (tr : list event) (s : st) : Prop :=
@@ -134,7 +135,7 @@ Qed.
 Lemma step_inv tr s e s' : Inv tr s -> step s e = Some s' -> Inv (tr ++ [e]) s'.
 Proof.
   intros HI HS. pose proof HI as (HT & HK & HN1 & HN2 & HL).
-  destruct e as [p|p|p n|p|p j|p j|p|p n|p|p|p c|p|p|p|j|j]; simpl in HS.
+  destruct e as [p|p|p n|p|p j|p j|p|p n|p|p|p c|p|p|p|j|j|p|p r]; simpl in HS.
   - (* Lock *)
     destruct (lock s) eqn:L; [discriminate|]. destruct (ph s p) eqn:P; try discriminate. inv_some HS.
     unfold Inv; simpl. rewrite kept_snoc, ghost_snoc, subs_snoc; simpl. rewrite Nat.eqb_refl.
@@ -313,6 +314,19 @@ Proof.
   - (* RmJobDir *)
     inv_some HS. unfold Inv; simpl. unfold bakl; simpl. fold (bakl s). rewrite kept_snoc, ghost_snoc; simpl. fold (kept tr).
     repeat split; auto. destruct (lock s); auto. rewrite subs_snoc; simpl. auto.
+  - (* LockGen *)
+    destruct (lock s) eqn:L; [discriminate|]. destruct (ph s p) eqn:P; try discriminate. inv_some HS.
+    unfold Inv; simpl. unfold bakl; simpl. fold (bakl s). rewrite kept_snoc, ghost_snoc; simpl. fold (kept tr).
+    repeat split; auto.
+    + intros q N. rewrite upd_neq by exact N. apply HL.
+    + rewrite upd_eq. exact I.
+  - (* EndGen *)
+    destruct (ph s p) eqn:P; try discriminate. inv_some HS.
+    assert (HO : is_out (ph s p) = false) by (rewrite P; reflexivity).
+    destruct (holder_is _ _ _ HI HO) as (L & HQ & HP).
+    unfold Inv; simpl. unfold bakl; simpl. fold (bakl s). rewrite kept_snoc, ghost_snoc; simpl. fold (kept tr). rewrite L, release_self.
+    repeat split; auto.
+    intros q. destruct (Nat.eq_dec q p) as [->|N]; [apply upd_eq | rewrite upd_neq by exact N; auto].
 Qed.
 
 Lemma run_inv tr : forall s, run init tr = Some s -> Inv tr s.
@@ -380,7 +394,7 @@ Theorem only_ok_exit_forgets : forall s e s', step s e = Some s' ->
   incl (names (jobs s) ++ names (bakl s)) (names (jobs s') ++ names (bakl s')).
 Proof.
   intros s e s' HS HE.
-  destruct e as [p|p|p n|p|p j|p j|p|p n|p|p|p c|p|p|p|j|j]; simpl in HS.
+  destruct e as [p|p|p n|p|p j|p j|p|p n|p|p|p c|p|p|p|j|j|p|p r]; simpl in HS.
   - destruct (lock s); [discriminate|]. destruct (ph s p); try discriminate. inv_some HS. apply incl_refl.
   - destruct (ph s p); try discriminate. inv_some HS. unfold bakl at 2. simpl. apply incl_refl.
   - destruct (ph s p); try discriminate. destruct (bak s) as [b|] eqn:B; try discriminate.
@@ -410,6 +424,8 @@ Proof.
   - discriminate.
   - inv_some HS. apply incl_refl.
   - inv_some HS. apply incl_refl.
+  - destruct (lock s); [discriminate|]. destruct (ph s p); try discriminate. inv_some HS. apply incl_refl.
+  - destruct (ph s p); try discriminate. inv_some HS. apply incl_refl.
 Qed.
 
 (* (5) exclusivity *)
@@ -445,7 +461,7 @@ Proof.
   intros tr s e s' H HS HC. apply run_inv in H.
   assert (HA : forall p, actor e = Some p -> is_out (ph s p) = false -> exists p, actor e = Some p /\ lock s = Some p).
   { intros p A O. exists p. split; [exact A|]. apply (holder_is _ _ _ H O). }
-  destruct e as [p|p|p n|p|p j|p j|p|p n|p|p|p c|p|p|p|j|j]; simpl in HS.
+  destruct e as [p|p|p n|p|p j|p j|p|p n|p|p|p c|p|p|p|j|j|p|p r]; simpl in HS.
   - destruct (lock s); [discriminate|]. destruct (ph s p); try discriminate. injection HS as <-. simpl in HC. tauto.
   - destruct (ph s p) eqn:P; try discriminate. apply (HA p); auto. rewrite P; reflexivity.
   - destruct (ph s p) eqn:P; try discriminate. apply (HA p); auto. rewrite P; reflexivity.
@@ -462,6 +478,8 @@ Proof.
   - discriminate.
   - injection HS as <-. simpl in HC. tauto.
   - injection HS as <-. simpl in HC. tauto.
+  - destruct (lock s); [discriminate|]. destruct (ph s p); try discriminate. injection HS as <-. simpl in HC. tauto.
+  - destruct (ph s p) eqn:P; try discriminate. apply (HA p); auto. rewrite P; reflexivity.
 Qed.
 
 (* (6) the theorem depends on what __enter__ does with an existing backup: a variant that
@@ -534,7 +552,7 @@ Qed.
 Lemma step_binv tr s e s' : Inv tr s -> BInv s -> step s e = Some s' -> BInv s'.
 Proof.
   intros HI HB HS.
-  destruct e as [p|p|p n|p|p j|p j|p|p n|p|p|p c|p|p|p|j|j]; simpl in HS.
+  destruct e as [p|p|p n|p|p j|p j|p|p n|p|p|p c|p|p|p|j|j|p|p r]; simpl in HS.
   - destruct (lock s); [discriminate|]. destruct (ph s p); try discriminate. inv_some HS.
     unfold BInv; simpl. apply binv_upd_other; [exact HB | exact I].
   - destruct (ph s p); try discriminate. inv_some HS. unfold BInv; simpl.
@@ -574,6 +592,10 @@ Proof.
   - discriminate.
   - inv_some HS. exact HB.
   - inv_some HS. exact HB.
+  - destruct (lock s); [discriminate|]. destruct (ph s p); try discriminate. inv_some HS.
+    unfold BInv; simpl. apply binv_upd_other; [exact HB | exact I].
+  - destruct (ph s p); try discriminate. inv_some HS.
+    unfold BInv; simpl. apply binv_upd_other; [exact HB | exact I].
 Qed.
 
 Lemma run_binv tr : forall s, run init tr = Some s -> BInv s.
@@ -674,6 +696,7 @@ Definition PInvL (cur keep subs : list jobid) (jl : list link) (b : option (list
   | ExitWait sub linked => common cur subs jl sub linked
   | ExitRm sub linked => common cur subs jl sub linked /\ incl keep (names jl) /\ incl sub linked
   | ExitFin sub linked => common cur subs jl sub linked /\ incl keep (names jl) /\ incl sub linked /\ b = None
+  | GenIn => True
   end.
 
 Definition InvL (tr : list event) (s : st) : Prop :=
@@ -707,7 +730,7 @@ Qed.
 Lemma step_late_inv tr s e s' : InvL tr s -> step_late s e = Some s' -> InvL (tr ++ [e]) s'.
 Proof.
   intros HI HS. pose proof HI as (HT & HK & HN1 & HN2 & HL).
-  destruct e as [p|p|p n|p|p j|p j|p|p n|p|p|p c|p|p|p|j|j]; simpl in HS.
+  destruct e as [p|p|p n|p|p j|p j|p|p n|p|p|p c|p|p|p|j|j|p|p r]; simpl in HS.
   - (* Lock *)
     destruct (lock s) eqn:L; [discriminate|]. destruct (ph s p) eqn:P; try discriminate. inv_some HS.
     unfold InvL; simpl. rewrite keptw_snoc, ghostw_snoc, subs_snoc; simpl. rewrite Nat.eqb_refl.
@@ -898,6 +921,19 @@ Proof.
   - (* RmJobDir *)
     inv_some HS. unfold InvL; simpl. unfold bakl; simpl. fold (bakl s). rewrite keptw_snoc, ghostw_snoc; simpl. fold (kept_w tr).
     repeat split; auto. destruct (lock s); auto. rewrite subs_snoc; simpl. auto.
+  - (* LockGen *)
+    destruct (lock s) eqn:L; [discriminate|]. destruct (ph s p) eqn:P; try discriminate. inv_some HS.
+    unfold InvL; simpl. unfold bakl; simpl. fold (bakl s). rewrite keptw_snoc, ghostw_snoc; simpl. fold (kept_w tr).
+    repeat split; auto.
+    + intros q N. rewrite upd_neq by exact N. apply HL.
+    + rewrite upd_eq. exact I.
+  - (* EndGen *)
+    destruct (ph s p) eqn:P; try discriminate. inv_some HS.
+    assert (HO : is_out (ph s p) = false) by (rewrite P; reflexivity).
+    destruct (holder_isL _ _ _ HI HO) as (L & HQ & HP).
+    unfold InvL; simpl. unfold bakl; simpl. fold (bakl s). rewrite keptw_snoc, ghostw_snoc; simpl. fold (kept_w tr). rewrite L, release_self.
+    repeat split; auto.
+    intros q. destruct (Nat.eq_dec q p) as [->|N]; [apply upd_eq | rewrite upd_neq by exact N; auto].
 Qed.
 
 Lemma run_invL tr : forall s, run_late init tr = Some s -> InvL tr s.
@@ -962,7 +998,7 @@ Theorem late_only_completed_exit_forgets : forall s e s', step_late s e = Some s
   incl (names (jobs s) ++ names (bakl s)) (names (jobs s') ++ names (bakl s')).
 Proof.
   intros s e s' HS HE.
-  destruct e as [p|p|p n|p|p j|p j|p|p n|p|p|p c|p|p|p|j|j];
+  destruct e as [p|p|p n|p|p j|p j|p|p n|p|p|p c|p|p|p|j|j|p|p r];
     try (exact (only_ok_exit_forgets s _ s' HS HE)); simpl in HS.
   - destruct (ph s p); try discriminate. inv_some HS. apply incl_refl.
   - destruct (ph s p); try discriminate. destruct (bak s) as [[|x b]|] eqn:B; try discriminate; inv_some HS;
@@ -999,6 +1035,61 @@ Proof.
   eexists. eexists. split; [vm_compute; reflexivity|]. split; [vm_compute; reflexivity|].
   split; [vm_compute; reflexivity|]. split; [vm_compute; reflexivity|]. vm_compute. repeat split.
 Qed.
+
+(* ------------------------------------------------------------------ run kinds other than NORMAL *)
+(* (10) a generate-only run holds the lock but never changes the index: whatever it does (enter, leave
+   normally or by an exception, die), jobs/ and jobs.bak/ stay as they were - in the code as it was and
+   in the repaired order.  All the theorems above quantify over histories in which such runs (and dry
+   runs, which have no event) are interleaved with normal ones.                                        *)
+Theorem generate_only_keeps_index : forall s p e s', ph s p = GenIn -> actor e = Some p ->
+  step s e = Some s' -> jobs s' = jobs s /\ bak s' = bak s.
+Proof.
+  intros s p e s' HP HA HS.
+  destruct e; simpl in HA; try discriminate; injection HA as ->; simpl in HS; rewrite HP in HS;
+    try discriminate; try (destruct (lock s); discriminate); simpl in HS; injection HS as <-; split; reflexivity.
+Qed.
+
+Theorem generate_only_keeps_index_late : forall s p e s', ph s p = GenIn -> actor e = Some p ->
+  step_late s e = Some s' -> jobs s' = jobs s /\ bak s' = bak s.
+Proof.
+  intros s p e s' HP HA HS.
+  destruct e; simpl in HA; try discriminate; injection HA as ->; simpl in HS; rewrite HP in HS;
+    try discriminate; try (destruct (lock s); discriminate); simpl in HS; injection HS as <-; split; reflexivity.
+Qed.
+
+Theorem generate_only_enters_alone : forall s p s', step s (LockGen p) = Some s' -> lock s = None /\ lock s' = Some p.
+Proof.
+  intros s p s' H. simpl in H. destruct (lock s); [discriminate|]. destruct (ph s p); try discriminate.
+  inv_some H. auto.
+Qed.
+
+(* sensitivity (NOT the code): an __exit__ that removes jobs.bak whenever the lock is held.  Run 0 completes
+   {1,2}; run 1 re-submits 1 and raises; a generate-only run ends normally: job 2 is in no index. *)
+Definition tr_gen_after_abort : list event :=
+  [ MkJobDir 1; MkJobDir 2;
+    Lock 0%nat; MkBak 0%nat; Ready 0%nat; Submit 0%nat 1; Submit 0%nat 2; Link 0%nat 1; Link 0%nat 2;
+    EndOk 0%nat; WaitOk 0%nat; RmBakDir 0%nat; Done 0%nat;
+    Lock 1%nat; MkBak 1%nat; Move 1%nat 1; Move 1%nat 2; Ready 1%nat; Submit 1%nat 1; Link 1%nat 1; EndExc 1%nat ExcError;
+    LockGen 2%nat; MkJobDir 3; EndGen 2%nat false ].
+
+Theorem genrm_variant_refuted : exists tr s,
+  run_genrm init tr = Some s /\ ~ incl (kept_w tr) (names (jobs s) ++ names (bakl s)) /\ In 2 (orphans s).
+Proof.
+  exists tr_gen_after_abort. eexists. split; [vm_compute; reflexivity|]. split.
+  - intros H. assert (X : In 2 (kept_w tr_gen_after_abort)) by (vm_compute; right; left; reflexivity).
+    apply H in X. vm_compute in X. destruct X as [X|[]]. discriminate X.
+  - vm_compute. right. left. reflexivity.
+Qed.
+
+(* the same history on the code: the backup is still there, 1 and 2 are not orphans; the folder 3 that the
+   generate-only run prepared is referenced by no index (that mode schedules nothing) and is listed *)
+Example ex_gen_after_abort : exists s, run_late init tr_gen_after_abort = Some s /\
+  kept_w tr_gen_after_abort = [1; 2; 1] /\ names (jobs s) = [1] /\ names (bakl s) = [2; 1] /\ orphans s = [3] /\ lock s = None.
+Proof. eexists. split; [vm_compute; reflexivity|]. vm_compute. repeat split. Qed.
+
+Example ex_gen_blocks_normal : exists s, run_late init (firstn 22 tr_gen_after_abort) = Some s /\
+  ph s 2%nat = GenIn /\ step_late s (Lock 3%nat) = None /\ step_late s (LockGen 3%nat) = None.
+Proof. eexists. split; [vm_compute; reflexivity|]. repeat split. Qed.
 
 (* ------------------------------------------------------------------ the lock file behind `lock` *)
 Lemma updh_eq {A} (f : nat -> option A) k v : updh f k v k = v.
